@@ -12,6 +12,7 @@ import (
 	"math/big"
 	"os"
 	"strings"
+	"sync"
 	"time"
 
 	"golang.org/x/tools/go/ssa"
@@ -742,6 +743,8 @@ func (m *Machine) callValue(fv Val, args []Val, caller *frame, site ssa.Instruct
 		return m.callFn(f.Fn, args, f.Env, caller, site)
 	case *ssa.Builtin:
 		return m.callBuiltin(f, args, caller, site)
+	case preResult:
+		return f.v
 	}
 	panic(fmt.Sprintf("callValue: %T", fv))
 }
@@ -1026,7 +1029,18 @@ func (m *Machine) exec(fr *frame, ins ssa.Instruction) {
 	}
 }
 
+var siteCache sync.Map
+
 func (m *Machine) siteOf(ins ssa.Instruction, fr *frame) string {
+	if s, ok := siteCache.Load(ins); ok {
+		return s.(string)
+	}
+	s := m.siteOf1(ins, fr)
+	siteCache.Store(ins, s)
+	return s
+}
+
+func (m *Machine) siteOf1(ins ssa.Instruction, fr *frame) string {
 	pos := ins.Pos()
 	if pos == token.NoPos {
 		return fr.fn.String()
@@ -1412,8 +1426,18 @@ func (m *Machine) rangeNext(iter Val, x *ssa.Next) Val {
 }
 
 func (it *mapIter) kvTypes(x *ssa.Next) (types.Type, types.Type) {
+	if it.m != nil {
+		return it.m.kt, it.m.vt
+	}
 	tup := x.Type().(*types.Tuple)
-	return tup.At(1).Type(), tup.At(2).Type()
+	kt, vt := tup.At(1).Type(), tup.At(2).Type()
+	if b, ok := kt.(*types.Basic); ok && b.Kind() == types.Invalid {
+		kt = types.Typ[types.Bool]
+	}
+	if b, ok := vt.(*types.Basic); ok && b.Kind() == types.Invalid {
+		vt = types.Typ[types.Bool]
+	}
+	return kt, vt
 }
 
 // decodeRuneSym decodes one rune from symbolic bytes by forking on the lead
